@@ -37,7 +37,10 @@ RULE = ("recipes of datasets (1..40 events; subsets of scalar, fl1..3_max, "
         "image/image_bg/mask, contour, traces, stored index, temp, ml_score "
         "features incl. feature sets whose alphabetically first member is "
         "'trace'; complete metadata) written through RTDCWriter, "
-        "ds.export.hdf5 (feature subsets, filtered), dclab-compress/-repack/"
+        "ds.export.hdf5 (feature subsets, filtered; for half of the "
+        "export/split/join/append/condense cases writer.CHUNK_SIZE_BYTES is "
+        "lowered to n-d chunks of 10 events and the event counts are "
+        "k*10-1, k*10, k*10+1), dclab-compress/-repack/"
         "-condense/-join/-split, then 0, 1 or 2 raw-h5py corruptions "
         "(truncate/extend a feature, trace, contour or index; event count; "
         "ROI size incl. exchanged x/y and transposed images; unknown feature; "
@@ -1284,7 +1287,20 @@ def expectation_met(exp, ids, info, has_flmax):
 # write paths
 # --------------------------------------------------------------------------
 def make_path_file(case, d):
-    """Creates the file of case["path"]; returns (path, provenance notes)."""
+    """Creates the file of case["path"]; returns (path, provenance notes).
+    With case["chunk_bytes"] the writer's chunk size is lowered (n-d chunks
+    of 10 events), so that small event counts lie around its multiples."""
+    from dclab.rtdc_dataset import writer as _writer
+    saved = _writer.CHUNK_SIZE_BYTES
+    try:
+        if case.get("chunk_bytes"):
+            _writer.CHUNK_SIZE_BYTES = int(case["chunk_bytes"])
+        return _make_path_file(case, d)
+    finally:
+        _writer.CHUNK_SIZE_BYTES = saved
+
+
+def _make_path_file(case, d):
     import dclab
     from dclab import cli
     rec = case["recipe"]
@@ -1410,6 +1426,33 @@ def gen_case(rng, k):
         case["pick"] = rng.randint(0, 5)
     if case["path"] == "join":
         case["n2"] = rng.choice([1, 2, 5])
+    if case["path"] in ("export", "split", "join", "append", "condense") \
+            and rng.random() < 0.5:
+        # event counts around multiples of the (lowered) n-d chunk size of
+        # 10: k*10-1, k*10, k*10+1 events are written by the filtered export
+        case["chunk_bytes"] = rng.choice([64, 256])
+        target = rng.choice([9, 10, 11, 19, 20, 21, 31])
+        if not (rec["image"] or rec["mask"] or rec["traces"]):
+            rec["image"] = True
+        if case["path"] == "export":
+            extra_n = rng.randint(1, 2)
+            rec["n"] = target + extra_n
+            case["drop"] = sorted(rng.sample(range(rec["n"]), extra_n))
+        elif case["path"] == "split":
+            case["split_events"] = target
+            rec["n"] = target * rng.randint(1, 2) + rng.choice([0, 1, 9, 11])
+            case["skip_empty"] = False
+        elif case["path"] == "join":
+            rec["n"] = target
+            case["n2"] = rng.choice([1, 9, 10, 11])
+        elif case["path"] == "append":
+            rec["n"] = target + rng.choice([1, 10, 11])
+            case["n1"] = target
+        else:
+            rec["n"] = target
+        rec.pop("cut", None)
+        if rec.get("temp") == "lead0":
+            rec["temp"] = "ok"
     r = rng.random()
     case["ncorr"] = 0 if r < 0.25 else (1 if r < 0.7 else 2)
     r = rng.random()
